@@ -16,6 +16,7 @@ package main
 // that no recover() can catch.
 
 import (
+	avrotime "github.com/philpearl/avro/time"
 	"bufio"
 	"encoding/binary"
 	"fmt"
@@ -78,6 +79,9 @@ func sgInitTables() bool {
 		{reflect.TypeFor[SGSliceD](), "slice"}, {reflect.TypeFor[SGSliceU](), "slice"},
 		{reflect.TypeFor[SGArrReg](), "none"}, {reflect.TypeFor[SGMapReg](), "none"}, {reflect.TypeFor[SGRecReg](), "none"},
 		{reflect.TypeFor[SGLongNL](), "long"},
+		{reflect.TypeFor[SGTagE](), "none"},
+		// unnamed types can be registered too (PkgPath() == "" and Name() == "")
+		{reflect.TypeFor[[]SGTagE](), "none"}, {reflect.TypeFor[map[string]SGTagE](), "none"},
 	} {
 		sgAddCustom(e.typ, e.kind)
 	}
@@ -448,10 +452,29 @@ func (c *sgCodec) Write(w *avro.WriteBuf, p unsafe.Pointer) {
 
 // applyRegs re-applies a registration history: (rs id schema) = RegisterSchema, (rc id inst accHex) =
 // Register with an instrumented builder that accepts the schemas of type acc.
+// userTimeCodec: a deliberately different representation of time.Time (whole seconds as a long)
+type userTimeCodec struct{}
+
+func (userTimeCodec) Read(r *avro.ReadBuf, p unsafe.Pointer) error {
+	v, err := r.Varint()
+	if err != nil {
+		return err
+	}
+	*(*time.Time)(p) = time.Unix(v, 0).UTC()
+	return nil
+}
+func (userTimeCodec) Skip(r *avro.ReadBuf) error            { _, err := r.Varint(); return err }
+func (userTimeCodec) New(r *avro.ReadBuf) unsafe.Pointer    { return r.Alloc(timeT) }
+func (userTimeCodec) Omit(p unsafe.Pointer) bool            { return false }
+func (userTimeCodec) Write(w *avro.WriteBuf, p unsafe.Pointer) { w.Varint((*time.Time)(p).Unix()) }
+
 func applyRegs(regs sx) {
 	for _, e := range regs.args() {
 		a := e.args()
-		id := int(a[0].int())
+		id := 0
+		if e.tag() == "rs" || e.tag() == "rc" {
+			id = int(a[0].int())
+		}
 		cu := sgCustoms[id]
 		switch e.tag() {
 		case "rs":
@@ -468,6 +491,17 @@ func applyRegs(regs sx) {
 				}
 				return &sgCodec{id: id, inst: inst, typ: cu.typ, kind: cu.kind}, nil
 			})
+		case "usertime":
+			// a user's own codec and schema for time.Time (always followed by a library re-registration in the
+			// generated histories: the most recent registration wins)
+			avro.RegisterSchema(timeT, sPrim("long"))
+			avro.Register(timeT, func(s avro.Schema, typ reflect.Type, omit bool) (avro.Codec, error) {
+				return userTimeCodec{}, nil
+			})
+			continue
+		case "lib":
+			avrotime.RegisterCodecs()
+			continue
 		default:
 			panic("harness: bad registration " + e.String())
 		}
@@ -530,6 +564,14 @@ func execSgen(op string, a []sx) sx {
 		}
 		before := probe()
 		res := sgSchemaAndCodec(t)
+		// the caller owns what it was given: renaming the record and its fields in one result must not
+		// show up in the next one
+		if own, err := avro.SchemaForType(reflect.New(t).Interface()); err == nil && own.Object != nil {
+			own.Object.Name = "RenamedByCaller"
+			for i := range own.Object.Fields {
+				own.Object.Fields[i].Name += "_renamed_by_caller"
+			}
+		}
 		again := sgSchemaAndCodec(t)
 		if after := probe(); after != before {
 			return T("nondet", hs("a registered type's schema changed: "+before+" then "+after))
@@ -645,6 +687,7 @@ func sgenChild() {
 func sgID(t reflect.Type) int { return sgCustomID[t] }
 
 func sgUnionNullFirst(s avro.Schema) avro.Schema { return sUnion(sPrim("null"), s) }
+func sUnionNullFirstOf(s avro.Schema) avro.Schema { return sgUnionNullFirst(s) }
 
 // the fixed registrations of the C15 generator
 func c15Regs(ids []int) sx {
@@ -661,6 +704,8 @@ func c15Regs(ids []int) sx {
 	add(reflect.TypeFor[SGLongA](), sgUnionNullFirst(sPrim("long")), "long")
 	add(reflect.TypeFor[SGStrA](), sgUnionNullFirst(sPrim("string")), "string")
 	add(reflect.TypeFor[SGLongNL](), sUnion(sPrim("long"), sPrim("null")), "long")
+	add(reflect.TypeFor[[]SGTagE](), sPrim("string"), "string")
+	add(reflect.TypeFor[map[string]SGTagE](), sUnionNullFirstOf(sPrim("bytes")), "bytes")
 	add(reflect.TypeFor[SGSliceA](), sPrim("bytes"), "bytes")
 	add(reflect.TypeFor[SGArrReg](), sArray(sPrim("long")), "array")
 	add(reflect.TypeFor[SGMapReg](), sMap(sPrim("string")), "map")
@@ -756,6 +801,7 @@ var (
 		reflect.TypeFor[SGStructA](), reflect.TypeFor[SGLongA](), reflect.TypeFor[SGStrA](), reflect.TypeFor[SGSliceA](),
 		reflect.TypeFor[SGArrReg](), reflect.TypeFor[SGMapReg](), reflect.TypeFor[SGRecReg](),
 		reflect.TypeFor[SGStructU](), reflect.TypeFor[SGLongU](), reflect.TypeFor[SGSliceU](), reflect.TypeFor[SGLongNL](),
+		reflect.TypeFor[[]SGTagE](), reflect.TypeFor[map[string]SGTagE](), reflect.TypeFor[SGTagE](),
 	}
 	sgJSONNames = []string{"", "", "", "a", "b", "x", "F1", "-", "omitempty"}
 	sgJSONOpts  = []string{"", "", ",omitempty", ",omitempty", ",omitempty,string", ",string", ",", ",omitemptyX", ",string,omitempty"}
@@ -1101,6 +1147,18 @@ func genC20(c *ctx) {
 					c.emitC20(td, env, regs, c.sgValue(top, 3))
 				}
 			}
+		}
+	}
+	// the library's own registration for time.Time, replaced by a user's and then re-established by calling the
+	// library's RegisterCodecs again: the most recent registration wins, in every position
+	for _, mk := range ctxs {
+		for _, tag := range []string{`json:"x"`, `json:"x,omitempty"`} {
+			top := reflect.StructOf([]reflect.StructField{
+				{Name: "Pre", Type: reflect.TypeOf(int64(0)), Tag: `json:"pre"`},
+				{Name: "X", Type: mk(timeT), Tag: reflect.StructTag(tag)},
+			})
+			td, env, _ := descOf(top)
+			c.emitC20(td, env, T("regs", T("usertime"), T("lib", A("time"))), c.sgValue(top, 3))
 		}
 	}
 	// two registered types side by side, and the same registered type twice, in random positions
